@@ -233,7 +233,7 @@ def idiom_c(body, wl):
             if n == "std::collections::HashMap::entry":
                 return [(st, ("mapentry", kind))]
             if n == "std::collections::hash_map::OccupiedEntry::get":
-                st.cells[(("sym", "old"), ())] = ("int", old if old is not None else 0, "bool")
+                st.set_cell(("sym", "old"), (), ("int", old if old is not None else 0, "bool"))
                 return [(st, ("ref", ("sym", "old"), ()))]
             if n in ("std::collections::hash_map::OccupiedEntry::insert",
                      "std::collections::hash_map::VacantEntry::insert"):
